@@ -57,17 +57,22 @@ macro_rules! verify_harness {
             fm.verify(&mut errors);
             let never = sum == 0;
             assert!(errors.len() == n_violated + if never { 1 } else { 0 });
+            // one line per violated pattern and one never-called line iff the sum is 0 (their order is not part of the property)
+            let mut n_failed = 0;
+            let mut n_never = 0;
             let mut j = 0;
             while j < N + 1 {
                 if j < errors.len() {
-                    if never && j == errors.len() - 1 {
-                        assert!(matches!(errors[j], MockError::MockNeverCalled { .. }));
-                    } else {
-                        assert!(matches!(errors[j], MockError::FailedVerification(_)));
+                    match errors[j] {
+                        MockError::MockNeverCalled { .. } => n_never += 1,
+                        MockError::FailedVerification(_) => n_failed += 1,
+                        _ => assert!(false),
                     }
                 }
                 j += 1;
             }
+            assert!(n_failed == n_violated);
+            assert!(n_never == if never { 1 } else { 0 });
             // frame: counters untouched
             let mut k = 0;
             while k < N {
